@@ -109,8 +109,22 @@ impl InterpolationSpeedGradeModel {
         )?;
 
         // Create a linear grid of speed and grade values
-        let speed_values = linspace(speed_bounds.0.as_f64(), speed_bounds.1.as_f64(), speed_bins);
-        let grade_values = linspace(grade_bounds.0.as_f64(), grade_bounds.1.as_f64(), grade_bins);
+        let speed_values = linspace(speed_bounds.0.as_f64(), speed_bounds.1.as_f64(), speed_bins)
+            .map_err(|e| TraversalModelError::BuildError(format!("speed_bins: {}", e)))?;
+        let grade_values = linspace(grade_bounds.0.as_f64(), grade_bounds.1.as_f64(), grade_bins)
+            .map_err(|e| TraversalModelError::BuildError(format!("grade_bins: {}", e)))?;
+
+        // The table holds speed_bins x grade_bins rates, one prediction of the underlying model each:
+        // refuse a table that cannot be allocated before predicting anything
+        speed_bins
+            .checked_mul(grade_bins)
+            .and_then(|n| Vec::<f64>::new().try_reserve_exact(n).ok())
+            .ok_or_else(|| {
+                TraversalModelError::BuildError(format!(
+                    "cannot allocate an interpolation table of {} x {} energy rates",
+                    speed_bins, grade_bins
+                ))
+            })?;
 
         // Predict energy rate values across the whole grid
         let mut values = Vec::new();
